@@ -444,7 +444,7 @@ func TestC20Queries(t *testing.T) {
 			// a governance-installed minter configuration (any valid one; mint denomination possibly one nobody holds yet) and a block time around it
 			mc := GenMinterCfg(t, 4, 40, 30)
 			mc.BaseNs = v.NowNs
-			mc.FirstID = 1
+			mc.FirstID = 1 // (the genesis state of the world runs period 1)
 			mc.Denom = []string{Denom, "uatom", "unew"}[rapid.IntRange(0, 2).Draw(t, "mintDenom")]
 			mp, sched := mc.Build()
 			v.Run(&mintertypes.MsgUpdateParams{Authority: GovAuthority(), MintDenom: mp.MintDenom, StartTime: mp.StartTime, Minters: mp.Minters})
@@ -455,6 +455,22 @@ func TestC20Queries(t *testing.T) {
 			}
 			if rapid.Bool().Draw(t, "runBlock") {
 				mintBlock(v.W, v.Ctx, mp.MintDenom, v.NowNs)
+				// governance may tidy the list afterwards: the periods that are over are dropped, the start time becomes
+				// the end of the last dropped one (the list then begins with the running period's id, not with 1)
+				if cur := v.App.CfeminterKeeper.GetMinterState(v.Ctx).SequenceId; cur > mc.FirstID && rapid.Bool().Draw(t, "dropFinishedPeriods") {
+					var kept []*mintertypes.Minter
+					start := mp.StartTime
+					for _, m := range mp.Minters {
+						if m.SequenceId >= cur {
+							kept = append(kept, m)
+						} else if m.EndTime != nil && m.EndTime.After(start) {
+							start = *m.EndTime
+						}
+					}
+					if res := v.Run(&mintertypes.MsgUpdateMintersParams{Authority: GovAuthority(), StartTime: start, Minters: kept}); res.OK() {
+						st.Class("finished_periods_dropped_from_the_schedule")
+					}
+				}
 			}
 		}
 		if stateKind == 1 || stateKind == 2 {
